@@ -180,6 +180,22 @@ def gen_spec(rng, idx, quick):
                 for f, v in pairs:
                     cur[sp].setdefault(f, v)
                 (pre if r3.random() < 0.5 else post).append(["create", sp, r3.choice(["dict", "pairs", "kw"]), pairs])
+        # a field taken away from a share while logs watch it (`del share[field]`): only a field that stands last in every
+        # selection that names it -- what a log does with the fields *behind* a missing one is not stated -- and never the
+        # only field of a share; records written meanwhile have an empty column for it, its absence alone is not a change
+        if i == 0:
+            start_order = {sp_: list(cur[sp_]) for sp_ in datashares} if side in ("before", "both") else \
+                          {sp_: list(fields_of[sp_]) for sp_ in datashares}      # fields a default selection has at the first START
+        r4 = random.Random(repr((idx, i, "del")))
+        if i > 1 and r4.random() < 0.10:
+            sp = r4.choice(datashares)
+            sels = [(le["fields"] or list(start_order[sp])) for lg_ in logs for le in lg_["loggees"] if le["share"] == sp]
+            cands = [f for f in cur[sp] if len(cur[sp]) > 1 and f in fields_of[sp]
+                     and all((f not in sel) or sel[-1] == f for sel in sels)]
+            if cands:
+                f = r4.choice(cands)
+                del cur[sp][f]
+                (pre if r4.random() < 0.5 else post).append(["del", sp, f])
         ticks.append({"pre": pre, "ctl": ctl[i], "post": post})
 
     return {"house": "H%d" % idx, "logger": "lgr", "dt": dt, "t0": 0.0,
@@ -236,6 +252,8 @@ def simulate(spec):
                     made = True
             if made:
                 s.updates.append((ev[0], tick))
+        elif k == "del":
+            s.data.pop(op[2], None)
         elif k == "value":
             s.data["value"] = op[2]
             s.updates.append((ev[0], tick))
@@ -378,7 +396,7 @@ def check_log(ctx, spec, lg, shares, runs, parsed, witness):
             if ri == 0:
                 exp = [line]
             else:
-                diff = sorted(k for k in now if now[k] != lastvals[k])
+                diff = sorted(k for k in now if now[k] != lastvals[k] and now[k] is not _ABSENT)   # (a field taken away is no change)
                 exp = [line] if diff else []
                 info = {"fields_differing_from_last_logged": [list(k) for k in diff[:6]],
                         "last_logged": {"%s.%s" % k: v for k, v in lastvals.items()}}
